@@ -53,9 +53,22 @@ fn catalog(g: usize) -> Arc<Cat> {
     z.add("*.w.gen.test.", wire::T_TXT, 60, &wire::txt_rdata(format!("g={g}").as_bytes()));
     qz::catalog_of(vec![z.finish()])
 }
+/// Key generation g: the key `k.` is absent in generation 3, uses HMAC-SHA1 in odd and
+/// HMAC-SHA256 in even generations, and always has its own secret; an unrelated key is
+/// always present.
+fn key_alg(g: usize) -> Option<Alg> {
+    match g {
+        3 => None,
+        g if g % 2 == 1 => Some(Alg::Sha1),
+        _ => Some(Alg::Sha256),
+    }
+}
 fn keys(g: usize) -> Arc<TsigKeyMap> {
     let mut m = TsigKeyMap::new();
-    m.insert(qz::qname("k."), (Algorithm::HmacSha256, secret(g).into_boxed_slice()));
+    if let Some(a) = key_alg(g) {
+        m.insert(qz::qname("k."), (if a == Alg::Sha1 { Algorithm::HmacSha1 } else { Algorithm::HmacSha256 }, secret(g).into_boxed_slice()));
+    }
+    m.insert(qz::qname("other."), (Algorithm::HmacSha256, secret(77).into_boxed_slice()));
     Arc::new(m)
 }
 
@@ -106,7 +119,11 @@ impl Prop for C32 {
             .map(|_| {
                 (0..queries_per_task)
                     .map(|_| {
-                        let signed = if r.below(3) == 0 { range(r, 0, generations as u64) as i32 } else { -1 };
+                        // sign with a generation in which the key exists
+                        let mut signed = if r.below(2) == 0 { range(r, 0, generations as u64) as i32 } else { -1 };
+                        if signed == 3 {
+                            signed = 2;
+                        }
                         (r.below(6) as u8, r.below(4) == 0, signed)
                     })
                     .collect()
@@ -185,7 +202,7 @@ impl Prop for C32 {
         "E1 simrt-threads"
     }
     fn expected_probes() -> Vec<&'static str> {
-        vec!["c32_response_during_swap_window", "c32_signed_ok", "c32_signed_badsig", "c32_old_generation_served_in_window"]
+        vec!["c32_response_during_swap_window", "c32_signed_ok", "c32_signed_badsig", "c32_signed_badkey", "c32_old_generation_served_in_window"]
     }
 }
 
@@ -240,11 +257,12 @@ fn run(scn: &Scn) {
                 };
                 let mut msg = wire::query((t * 100 + i) as u16, qn, qt);
                 let mut req_mac = vec![];
+                let sign_alg = if *signed >= 0 { key_alg(*signed as usize).unwrap_or(Alg::Sha256) } else { Alg::Sha256 };
                 if *signed >= 0 {
                     let spec = SignSpec {
                         key_name: wire::name("k."),
-                        alg: Alg::Sha256,
-                        alg_name: Alg::Sha256.name(),
+                        alg: sign_alg,
+                        alg_name: sign_alg.name(),
                         secret: secret(*signed as usize),
                         time: simrt::time::wall_secs(),
                         fudge: 300,
@@ -289,34 +307,46 @@ fn run(scn: &Scn) {
                         viol("signed-request-unsigned-response", format!("task {t} query {i}: response to a signed request carries no TSIG"));
                         return;
                     };
-                    if m.rcode() == 9 && tf.error == 16 {
-                        // BADSIG: explained by some key generation != j in the window
-                        if !(klo..=khi).any(|h| h != j) {
-                            viol("badsig-although-key-current", format!("task {t} query {i}: request signed with key generation {j}, key window [{klo},{khi}], got BADSIG"));
-                            return;
+                    // what each key generation h in the window would make of this request
+                    let outcome = |h: usize| -> &'static str {
+                        match key_alg(h) {
+                            None => "badkey",
+                            Some(a) if a != sign_alg => "badkey",
+                            Some(_) if h != j => "badsig",
+                            Some(_) => "ok",
                         }
-                        if !tf.mac.is_empty() {
-                            viol("badsig-with-mac", "BADSIG response carries a MAC".into());
-                            return;
-                        }
-                        simrt::probe("c32_signed_badsig");
-                        if !m.answers.is_empty() || !m.authority.is_empty() {
-                            viol("answer-data-with-badsig", "BADSIG response carries answer data".into());
-                            return;
-                        }
-                        continue;
-                    }
-                    if tf.error != 0 {
+                    };
+                    let observed = if m.rcode() == 9 && tf.error == 17 {
+                        "badkey"
+                    } else if m.rcode() == 9 && tf.error == 16 {
+                        "badsig"
+                    } else if tf.error == 0 {
+                        "ok"
+                    } else {
                         viol("unexpected-tsig-error", format!("task {t} query {i}: TSIG error {} rcode {}", tf.error, m.rcode()));
                         return;
-                    }
-                    // accepted: the key generation that authenticated it must be j, in the window,
-                    // and the response must be signed with that same secret
-                    if !(klo..=khi).contains(&j) {
-                        viol("accepted-under-absent-key", format!("task {t} query {i}: request signed with generation {j} accepted, key window [{klo},{khi}]"));
+                    };
+                    if !(klo..=khi).any(|h| outcome(h) == observed) {
+                        viol(
+                            "tsig-outcome-explained-by-no-key-generation",
+                            format!("task {t} query {i}: request signed with generation {j} ({sign_alg:?}) got '{observed}', but key generations in the window [{klo},{khi}] give {:?}", (klo..=khi).map(outcome).collect::<Vec<_>>()),
+                        );
                         return;
                     }
-                    if let Err(e) = tsigref::verify_response(resp, &req_mac, Alg::Sha256, &secret(j)) {
+                    if observed != "ok" {
+                        if !tf.mac.is_empty() {
+                            viol("tsig-error-with-mac", format!("{observed} response carries a MAC"));
+                            return;
+                        }
+                        if !m.answers.is_empty() || !m.authority.is_empty() {
+                            viol("answer-data-with-tsig-error", format!("{observed} response carries answer data"));
+                            return;
+                        }
+                        simrt::probe(if observed == "badsig" { "c32_signed_badsig" } else { "c32_signed_badkey" });
+                        continue;
+                    }
+                    // accepted: the response must be signed with the very secret that authenticated it
+                    if let Err(e) = tsigref::verify_response(resp, &req_mac, sign_alg, &secret(j)) {
                         viol("mixed-key-snapshots", format!("task {t} query {i}: request accepted under key generation {j} but the response MAC does not verify under it: {e}"));
                         return;
                     }
